@@ -19,3 +19,23 @@ pub use state::{Allocation, AllocationId, AllocationState, QueueId};
 
 #[cfg(test)]
 pub use service::tests::test_alloc_service;
+
+/// Verification hooks: crate-internal access to items of the private modules (used by `crate::verif`).
+#[cfg(it4innovations_hyperqueue_verif)]
+pub(crate) mod verif_access {
+    pub(crate) use super::config::{
+        MAX_QUEUED_STATUS_ERROR_COUNT, MAX_RUNNING_STATUS_ERROR_COUNT, MAX_SUBMISSION_FAILS,
+        SUBMISSION_DELAYS, max_allocation_fails,
+    };
+    pub(crate) use super::process::verif_hooks;
+    pub(crate) use super::queue::{
+        AllocationExternalStatus, AllocationStatusMap, AllocationSubmissionResult, QueueHandler,
+        SubmitMode,
+    };
+    pub(crate) use super::service::AutoAllocMessage;
+    pub(crate) use super::state::{AutoAllocState, RateLimiter};
+}
+
+/// Verification hook (journal component).
+#[cfg(it4innovations_hyperqueue_verif)]
+pub(crate) use state::verif_first_queue_id;
